@@ -334,6 +334,11 @@ def r4_query_scope(P, rep, ctx):
     sp = cfi.params[1]
     rets = [(i, cn.x(v), cn.xe(v)) for i, v in cn.returns() if v is not None]
     okc = bool(rets) and all(t == "False" or t == f"any(True for _ in self.query({sp}))" or M.equivalent(e_, f"next(self.query({sp}), None) is not None") for i, t, e_ in rets) and any(t != "False" for i, t, e_ in rets)
+    if not okc and rets:
+        # the same as a loop: `for _ in self.query(schema): return True` ... `return False`
+        loops = [n for n in cn.g.nodes if n.kind == "for" and cn.x(n.stmt.iter) == f"self.query({sp})" and n.stmt.body and isinstance(n.stmt.body[0], ast.Return) and isinstance(n.stmt.body[0].value, ast.Constant) and n.stmt.body[0].value.value is True and not n.stmt.orelse]
+        in_loop = {id(l.stmt.body[0]) for l in loops}
+        okc = len(loops) == 1 and all(t == "False" or id(cn.g.nodes[i].stmt) in in_loop for i, t, e_ in rets)
     rep.check(okc, "C07.R4", cfi.qual, "membership == query is non-empty", cfi.loc(), construct="__contains__", message="MetadorMeta.__contains__ is not `next(self.query(schema), None) is not None`")
     gfi = P.func(f"{MM}.get")
     gt = F(ctx, gfi)
@@ -342,7 +347,10 @@ def r4_query_scope(P, rep, ctx):
     if okg:
         sn, sv = names[0], names[1]
         COMPAT = f"next(self.query({sn}, {sv}), None)"
-        rets = [(i, v) for i, v in gt.returns() if v is not None and not (isinstance(v, ast.Constant) and v.value is None)]
+        # (a parameter whose default is None stands for None: `default=None` added like dict.get)
+        a_ = gfi.node.args
+        none_params = {p_.arg for p_, d_ in list(zip((a_.posonlyargs + a_.args)[len(a_.posonlyargs + a_.args) - len(a_.defaults):], a_.defaults)) + list(zip(a_.kwonlyargs, a_.kw_defaults)) if isinstance(d_, ast.Constant) and d_.value is None} - {gfi.params[2]}
+        rets = [(i, v) for i, v in gt.returns() if v is not None and not (isinstance(v, ast.Constant) and v.value is None) and not (isinstance(v, ast.Name) and v.id in none_params)]
         want = f"self._parse_obj(self._require_schema({sn}, {sv}), self._get_raw({COMPAT}.name, {COMPAT}.version).node[()])"
         okg = bool(rets) and all(gt.x_at(i, v) in (want, f"cast(S, {want})") for i, v in rets)
         none = gt.tests(f"not {COMPAT}", f"{COMPAT} is None")
@@ -540,7 +548,7 @@ def r6_children_index(P, rep, ctx):
     q = F(ctx, qfi)
     calls = q.call_sites("self.__wrapped__.query(___)")
     d = sorted({q.x_at(i, kwarg_(c, "node")) for i, c, b in calls if kwarg_(c, "node") is not None})
-    rep.check(bool(calls) and all(kwarg_(c, "node") is not None for i, c, b in calls) and set(d) <= {"node or self._self_query_start_node", "self._self_query_start_node if node is None else node", "node if node is not None else self._self_query_start_node", "node"} and _start_default(q), "C07.R6", qfi.qual, "an explicitly passed start node takes precedence over the accessor's own node", qfi.loc(), construct=f"node = {d}",
+    rep.check(bool(calls) and all(kwarg_(c, "node") is not None for i, c, b in calls) and set(d) <= {"node or self._self_query_start_node", "self._self_query_start_node if node is None else node", "node if node is not None else self._self_query_start_node", "node"} and ("node" not in d or _start_default(q)), "C07.R6", qfi.qual, "an explicitly passed start node takes precedence over the accessor's own node", qfi.loc(), construct=f"node = {d}",
               message=f"node-level query computes its start node as {d}: an explicitly requested start node is ignored and results come from the wrong subtree")
 
 
